@@ -210,6 +210,10 @@ def gen_case(rng: random.Random, name: str, nsteps: int | None = None) -> dict:
                 seen.add(key)
                 uniq.append(e)
         custom[str(k)] = uniq
+    conflict_mode = rng.random() < 0.4 and ncustom >= 2
+    if conflict_mode:  # every custom builder proposes its own value for one shared name
+        for k in custom:
+            custom[k] = [["G", "shared", int(k) + 0.5]] + [e for e in custom[k] if e[:2] != ["G", "shared"]]
     bids = list(range(5)) + [int(k) for k in custom]
     weights = [1, 3, 1, 1, 1] + [3] * ncustom
     hist = []
@@ -252,6 +256,16 @@ def gen_case(rng: random.Random, name: str, nsteps: int | None = None) -> dict:
             sel = {"k": "other", "v": rng.randint(0, 3)}
         sel["b"] = b
         hist.append(sel)
+    if conflict_mode:  # make sure two different custom builders are in use at the end
+        ks = [int(k) for k in custom]
+        rng.shuffle(ks)
+        names2 = rng.sample(parents, 2) if len(parents) >= 2 else parents * 2
+        hist.append({"k": "str", "name": names2[0], "b": ks[0]})
+        ij = rng.choice(c.chains)
+        if rng.random() < 0.5:
+            hist.append({"k": "str", "name": names2[1], "b": ks[1]})
+        else:
+            hist.append({"k": "node", "chain": list(ij), "node": rng.choice(sorted(c.chain(ij).topology.nodes)), "b": ks[1]})
     return {"reaction": name, "hc": rng.random() < 0.25, "custom": custom, "history": hist}
 
 
@@ -733,7 +747,12 @@ def compare(case: dict, obs: dict, pred: dict, rng: random.Random, n_numeric: in
             "formulate": "EValue" | {"calls": [[call|None...]...], "defaults": [...]|None,
             "warnings": [...]|None}}  with call = [b, parent name, [m, ma, mb, L], params]."""
     fails = []
-    stats = {"decay_lookups": 0, "chain_ratios": 0, "numeric": 0, "structural": 0}
+    stats = {"decay_lookups": 0, "chain_ratios": 0, "numeric": 0, "structural": 0, "cases_with_warnings": 0,
+             "formulate_ok": 0, "error_steps": 0, "notfound_steps": 0}
+    stats["cases_with_warnings"] = int(bool(obs.get("warnings")))
+    stats["formulate_ok"] = int(obs["formulate"] == "ok")
+    stats["error_steps"] = sum(1 for st in obs["steps"] if st["res"].startswith("E"))
+    stats["notfound_steps"] = sum(1 for st in obs["steps"] if st["res"] == "notfound")
 
     def fail(sig, what):
         fails.append({"signature": f"{tag}:{sig}", "what": f"{case['reaction']}: {what}"[:600], "case": case})
